@@ -1,5 +1,10 @@
 mod stark;
 mod fri_exp;
+mod c11;
+mod c20;
+mod c18;
+mod c17;
+mod c16;
 mod reccoin;
 mod mix;
 mod merkle_exp;
@@ -35,6 +40,11 @@ fn main() {
     type H = Blake3_256<B>;
     match which.as_str() {
         "fri" => fri_exp::run(),
+        "c11" => c11::run(),
+        "c20" => c20::run(),
+        "c18" => c18::run(),
+        "c17" => c17::run(),
+        "c16" => c16::run(),
         "c04" => {
             let r = mix::one::<g64::BaseElement, Blake3_256<g64::BaseElement>>(64, 1, 4, 1, ProofOptions::new(5, 4, 3, FieldExtension::Quadratic, 4, 3));
             println!("{r}");
